@@ -561,7 +561,7 @@ def fam_infinite(rng):
     return {'family': 'inf-filter', 'clauses': cl, 'query': ['nn', [V('Q0')]], 'fpl': 2, 'tdepth': 70, 'maxdelta': 120}
 
 def fam_random(rng):
-    o = progs.Opts(control=rng.random() < 0.6, cut=rng.random() < 0.4, opaque_cut=False, builtins=rng.random() < 0.4)
+    o = progs.Opts(control=rng.random() < 0.6, cut=rng.random() < 0.4, opaque_cut=rng.random() < 0.3, builtins=rng.random() < 0.4)
     p = progs.gen_program(rng, o)
     return {'family': 'random', 'clauses': p['clauses'], 'query': rng.choice(p['queries']), 'fpl': 3, 'tdepth': 10, 'maxdelta': 160, 'dchk': 40}
 
